@@ -162,13 +162,25 @@ func VX_C18_QPSRace(args []int) {
 
 func init() { vxRegister("VX_C18_QPSSession", VX_C18_QPSSession) }
 
+// vxHeaderAudit implements the same header hooks as the overloader and always agrees.
+type vxHeaderAudit struct{ seen int }
+
+func (a *vxHeaderAudit) Name() string                                      { return "vxheaderaudit" }
+func (a *vxHeaderAudit) PostReadCallHeader(erpc.ReadCtx) *erpc.Status      { a.seen++; return nil }
+func (a *vxHeaderAudit) PostReadPushHeader(erpc.ReadCtx) *erpc.Status      { a.seen++; return nil }
+
 // VX_C18_QPSSession: with a total rate limit of C per interval and no refill,
 // of k calls/pushes received on a session exactly C are handled; every
-// rejected CALL receives an error reply and is not handled. args: C, k, kind(0 calls, 1 pushes)
+// rejected CALL receives an error reply and is not handled. args: C, k, kind(0 calls, 1 pushes)[, otherPluginAfter(0/1)]
 func VX_C18_QPSSession(args []int) {
 	C, k, kind := args[0], args[1], args[2]
 	o := New(LimitConfig{MaxTotalQPS: int32(C), QPSInterval: time.Second})
-	p := erpc.NewPeer(erpc.PeerConfig{}, o)
+	var p erpc.Peer
+	if len(args) > 3 && args[3] == 1 {
+		p = erpc.NewPeer(erpc.PeerConfig{}, o, &vxHeaderAudit{}) // another header plugin registered after the overloader
+	} else {
+		p = erpc.NewPeer(erpc.PeerConfig{}, o)
+	}
 	handled := 0
 	p.SetUnknownCall(func(ctx erpc.UnknownCallCtx) (interface{}, *erpc.Status) { handled++; return []byte("ok"), nil })
 	p.SetUnknownPush(func(ctx erpc.UnknownPushCtx) *erpc.Status { handled++; return nil })
